@@ -1,9 +1,87 @@
 import RustbusModel.Model.Proto
+import RustbusModel.Model.Rpc
 namespace Driver.C14
-open Rustbus Rustbus.Proto
+open Rustbus Rustbus.Proto Rustbus.Rpc
+
+/-
+Request:  c14.run <op> <op> ...      (one token per operation, in history order)
+  A:<id>:<c|r|e|s>:<serial>:<reply serial|~>:<sender code points|~>:<0|1 filter verdict>   the peer writes a message
+  TR:<s> TS TC      try_get_response(s) / try_get_signal / try_get_call
+  RO RA             refill_once (try_refill_once) / refill_all
+  WR:<s> WS WC      wait_response(s) / wait_signal / wait_call
+Response: one item per operation, separated by spaces:
+  a | t<id> | t~ | g<id> | b | rc rr re rs | to | d[<errs>]        then `|<errs>` if error replies were written to the peer
+  <errs> = `;`-separated  <reply serial>/<destination code points|~>/<error name code points>
+  `panic` ends the log if the model hits the unwrap() panic.
+-/
+
+def parseTyp (s : String) : Option Typ :=
+  if s == "c" then some .call else if s == "r" then some .reply
+  else if s == "e" then some .error else if s == "s" then some .signal else none
+
+def parseOptNat (s : String) : Option (Option Nat) :=
+  if s == "~" then some none else s.toNat?.map some
+
+def parseOptStr (s : String) : Option (Option (List Char)) :=
+  if s == "~" then some none else (parseCodepoints s).map some
+
+def parseOp (tok : String) : Option Op :=
+  match tok.splitOn ":" with
+  | ["A", id, t, serial, rs, sender, acc] =>
+    match id.toNat?, parseTyp t, serial.toNat?, parseOptNat rs, parseOptStr sender with
+    | some id, some t, some serial, some rs, some sender =>
+      if acc == "1" then some (.arrive ⟨id, t, serial, rs, sender, true⟩)
+      else if acc == "0" then some (.arrive ⟨id, t, serial, rs, sender, false⟩)
+      else none
+    | _, _, _, _, _ => none
+  | ["TR", s] => s.toNat?.map Op.tryResponse
+  | ["TS"] => some .trySignal
+  | ["TC"] => some .tryCall
+  | ["RO"] => some .refillOnce
+  | ["RA"] => some .refillAll
+  | ["WR", s] => s.toNat?.map Op.waitResponse
+  | ["WS"] => some .waitSignal
+  | ["WC"] => some .waitCall
+  | _ => none
+
+def showCps (s : List Char) : String :=
+  if s.isEmpty then "-" else ",".intercalate (s.map (fun c => toString c.toNat))
+
+def showErr (e : ErrReply) : String :=
+  toString e.replySerial ++ "/" ++ (match e.dest with | some d => showCps d | none => "~") ++ "/" ++ showCps e.errorName
+
+def showErrs (es : List ErrReply) : String := ";".intercalate (es.map showErr)
+
+def showTyp : Typ → String
+  | .call => "c" | .reply => "r" | .error => "e" | .signal => "s"
+
+def showObs : Obs → String
+  | .arrived => "a"
+  | .tried (some m) => "t" ++ toString m.id
+  | .tried none => "t~"
+  | .got m => "g" ++ toString m.id
+  | .blocked => "b"
+  | .refilled t => "r" ++ showTyp t
+  | .timedOut => "to"
+  | .drained errs => "d[" ++ showErrs errs ++ "]"
+
+/-- the observation log of a history: per operation what the caller saw and what was written to the peer -/
+def runLog : State → List Op → List String
+  | _, [] => []
+  | st, op :: ops =>
+    match step st op with
+    | none => ["panic"]
+    | some (o, st') =>
+      let written := st'.sent.drop st.sent.length
+      let item := if written.isEmpty then showObs o else showObs o ++ "|" ++ showErrs written
+      item :: runLog st' ops
 
 /-- line protocol handler for the ops `c14.*` (tokens of one request line → one response line) -/
 def handle : List String → String
+  | "c14.run" :: toks =>
+    match toks.mapM parseOp with
+    | some ops => if ops.isEmpty then "-" else " ".intercalate (runLog State.init ops)
+    | none => "bad-op"
   | _ => "bad-op"
 
 end Driver.C14
